@@ -620,4 +620,468 @@ theorem silent_real_escape {st : IState} {n : Nat} {st1 : IState}
     have v2 := ruleEscape_verdict hw hr
     exact ⟨by rw [v2, ← v1], (ruleEscape_simple hr).pos⟩
 
+/-! ## entity -/
+
+/-- the characters a character reference consists of behind its `&` -/
+def isEntChar (c : Char) : Bool := c == '#' || c == ';' || Entity.isAlnumI c
+
+theorem isAlnum_isAlnumI {c : Char} (h : Entity.isAlnum c = true) : Entity.isAlnumI c = true := by
+  unfold Entity.isAlnum at h
+  unfold Entity.isAlnumI Entity.isAlphaI
+  simp only [Bool.or_eq_true] at h ⊢
+  rcases h with h | h
+  · exact Or.inl (Or.inl (Or.inl h))
+  · exact Or.inr h
+
+/-- what a successful `entityCore` matched: a prefix `&…;` of the suffix it was shown, made of
+    reference characters -/
+theorem entityCore_some {lookup : List Char → Option (List Char)} {w suffix : List Char}
+    {sp : Entity.Special} (h : Entity.entityCore lookup w suffix = .ok (some sp)) :
+    ∃ t rest, sp.markup = '&' :: t ∧ suffix = sp.markup ++ rest ∧ ∀ c ∈ t, isEntChar c = true := by
+  unfold Entity.entityCore at h
+  split at h
+  · simp at h
+  · next c w1 =>
+    split at h
+    · simp at h
+    · split at h
+      · -- digital
+        unfold Entity.parseDigitalEntity at h
+        split at h
+        · simp at h
+        · next cap rest hm =>
+          simp only at h
+          split at h
+          · simp at h
+          · next content hd =>
+            simp only [Except.ok.injEq, Option.some.injEq] at h
+            subst h
+            unfold Entity.matchDigitalRe at hm
+            split at hm
+            · next s' =>
+              obtain ⟨hb, hs'⟩ := Entity.matchDigitalBody_sound _ _ _ hm
+              obtain ⟨hal, _, _⟩ := Entity.numericBody_alnum cap hb
+              refine ⟨'#' :: (cap ++ [';']), rest, rfl, ?_, ?_⟩
+              · simp [hs']
+              · intro x hx
+                simp only [List.mem_cons, List.mem_append, List.mem_nil_iff, or_false] at hx
+                rcases hx with rfl | hx | rfl
+                · decide
+                · unfold isEntChar; simp [isAlnum_isAlnumI (hal x hx)]
+                · decide
+            · simp at hm
+      · -- named
+        unfold Entity.parseNamedEntity at h
+        split at h
+        · simp at h
+        · next whole rest hm =>
+          split at h
+          · simp at h
+          · next str hl =>
+            simp only [Except.ok.injEq, Option.some.injEq] at h
+            subst h
+            unfold Entity.matchNamedRe at hm
+            split at hm
+            · next c2 s' =>
+              split at hm
+              · next hc2 =>
+                split at hm
+                · next run rest' hr =>
+                  simp only [Option.some.injEq, Prod.mk.injEq] at hm
+                  obtain ⟨rfl, rfl⟩ := hm
+                  obtain ⟨hall, _, _, hs'⟩ := Entity.runThenSemi_sound _ _ _ _ _ hr
+                  refine ⟨c2 :: (run ++ [';']), rest', rfl, ?_, ?_⟩
+                  · simp [hs']
+                  · intro x hx
+                    simp only [List.mem_cons, List.mem_append, List.mem_nil_iff, or_false] at hx
+                    rcases hx with rfl | hx | rfl
+                    · unfold isEntChar Entity.isAlnumI; simp [hc2]
+                    · unfold isEntChar; simp [hall x hx]
+                    · decide
+                · simp at hm
+              · simp at hm
+            · simp at hm
+
+theorem entityCore_total (lookup : List Char → Option (List Char)) {w : List Char} (hne : w ≠ [])
+    (suffix : List Char) : ∃ r, Entity.entityCore lookup w suffix = .ok r := by
+  unfold Entity.entityCore
+  cases w with
+  | nil => exact absurd rfl hne
+  | cons c w1 =>
+    simp only
+    split
+    · exact ⟨_, rfl⟩
+    · split
+      · unfold Entity.parseDigitalEntity
+        split
+        · exact ⟨_, rfl⟩
+        · next cap rest hm =>
+          have hb : Entity.numericBody cap = true := by
+            unfold Entity.matchDigitalRe at hm
+            split at hm
+            · exact (Entity.matchDigitalBody_sound _ _ _ hm).1
+            · simp at hm
+          simp only [Entity.numeric_parse_total cap hb]
+          exact ⟨_, rfl⟩
+      · unfold Entity.parseNamedEntity
+        split
+        · exact ⟨_, rfl⟩
+        · split <;> exact ⟨_, rfl⟩
+
+theorem ruleEntity_simple {cfg : Cfg} {st st' : IState} {silent : Bool} {o : Option Nat}
+    (h : ruleEntity cfg st silent = .ok (o, st')) : Simple st silent o st' := by
+  unfold ruleEntity at h
+  split at h
+  · simp at h
+  · next w hw =>
+    split at h
+    · simp at h
+    · split at h
+      · simp only [Except.ok.injEq, Prod.mk.injEq] at h; obtain ⟨rfl, rfl⟩ := h
+        exact ⟨Frame.refl _, rfl, rfl, fun _ => Quiet.refl _, by simp⟩
+      · split at h
+        · simp at h
+        · next suffix hsuf =>
+          split at h
+          · simp at h
+          · simp only [Except.ok.injEq, Prod.mk.injEq] at h; obtain ⟨rfl, rfl⟩ := h
+            exact ⟨Frame.refl _, rfl, rfl, fun _ => Quiet.refl _, by simp⟩
+          · next sp hc =>
+            obtain ⟨t, rest, hmk, _, _⟩ := entityCore_some hc
+            have hb : 1 ≤ byteLen sp.markup := by
+              rw [hmk]; have := Char.utf8Size_pos '&'; simp only [byteLen]; omega
+            simp only at h
+            split at h
+            · simp only [Except.ok.injEq, Prod.mk.injEq] at h; obtain ⟨rfl, rfl⟩ := h
+              refine ⟨Frame.refl _, rfl, rfl, fun _ => Quiet.refl _, ?_⟩
+              intro l hl; simp only [Option.some.injEq] at hl; omega
+            · next hs =>
+              split at h
+              · simp at h
+              · simp only [Except.ok.injEq, Prod.mk.injEq] at h; obtain ⟨rfl, rfl⟩ := h
+                refine ⟨⟨rfl, rfl, rfl, rfl, rfl⟩, rfl, rfl, fun hq => absurd hq hs, ?_⟩
+                intro l hl; simp only [Option.some.injEq] at hl; omega
+
+/-- the verdict of the entity rule as a function of window and suffix -/
+def entityLen (cfg : Cfg) (w suffix : List Char) : Option Nat :=
+  match w with
+  | [] => none
+  | c :: _ =>
+    if c ≠ '&' then none
+    else
+      match Entity.entityCore cfg.entity w suffix with
+      | .ok (some sp) => some (byteLen sp.markup)
+      | _ => none
+
+theorem ruleEntity_verdict {cfg : Cfg} {st st' : IState} {silent : Bool} {o : Option Nat}
+    {w suffix : List Char} (hw : st.window = .ok w)
+    (hsuf : slice st.src st.pos (byteLen st.src) = .ok suffix)
+    (h : ruleEntity cfg st silent = .ok (o, st')) : o = entityLen cfg w suffix := by
+  unfold ruleEntity at h
+  rw [hw] at h
+  simp only at h
+  unfold entityLen
+  split at h
+  · simp at h
+  · next c w1 =>
+    simp only
+    split at h
+    · next hc => rw [if_pos hc]; simp only [Except.ok.injEq, Prod.mk.injEq] at h; exact h.1.symm
+    · next hc =>
+      rw [if_neg hc]
+      rw [hsuf] at h
+      simp only [liftOps] at h
+      split at h
+      · simp at h
+      · next hcore => rw [hcore]; simp only [Except.ok.injEq, Prod.mk.injEq] at h; exact h.1.symm
+      · next sp hcore =>
+        rw [hcore]
+        split at h
+        · simp only [Except.ok.injEq, Prod.mk.injEq] at h; exact h.1.symm
+        · split at h
+          · simp at h
+          · simp only [Except.ok.injEq, Prod.mk.injEq] at h; exact h.1.symm
+
+/-- the hypothesis the entity rule needs about `posMax` (its regexes look at `src[pos..]`, not at
+    the window): the character AT `posMax`, if there is one, cannot continue a reference -/
+def EntStop (src : List Char) (posMax : Nat) : Prop :=
+  ∀ pre c post, src = pre ++ c :: post → byteLen pre = posMax → isEntChar c = false
+
+theorem inline_rule_progress_entity (cfg : Cfg) {st : IState} (hi : InlineInv st)
+    (hstop : EntStop st.src st.posMax) (silent : Bool) :
+    ∃ o st', ruleEntity cfg st silent = .ok (o, st') ∧ Advances st o := by
+  obtain ⟨pre, w, post, hsrc, hpre, hlen, hw, hne⟩ := window_ok hi
+  have hsl := window_eq hw
+  have hsuf : slice st.src st.pos (byteLen st.src) = .ok (w ++ post) :=
+    (slice_ok_iff _ _ _ _).mpr ⟨pre, [], by rw [hsrc]; simp, hpre, by
+      rw [hsrc, byteLen_append, byteLen_append, byteLen_append]; omega⟩
+  have hadv : ∀ (o : Option Nat), o = entityLen cfg w (w ++ post) → Advances st o := by
+    intro o ho len hl
+    subst ho
+    unfold entityLen at hl
+    split at hl
+    · simp at hl
+    · next c w1 =>
+      split at hl
+      · simp at hl
+      · next hc =>
+        split at hl
+        · next sp hcore =>
+          simp only [Option.some.injEq] at hl; subst hl
+          obtain ⟨t, rest, hmk, hsf, hall⟩ := entityCore_some hcore
+          have hc' : c = '&' := by simpa using hc
+          subst hc'
+          -- the match does not reach beyond the window
+          have hfit : byteLen sp.markup ≤ byteLen ('&' :: w1) := by
+            rcases Nat.lt_or_ge (byteLen ('&' :: w1)) (byteLen sp.markup) with hlt | hge
+            · exfalso
+              obtain ⟨x, hx1, hx2⟩ := append_prefix ('&' :: w1) post sp.markup rest hsf (by omega)
+              -- `x` is the part of the match behind the window; it is not empty
+              cases x with
+              | nil => simp at hx1; rw [hx1] at hlt; omega
+              | cons p x' =>
+                have hp : isEntChar p = true := by
+                  apply hall
+                  have : '&' :: t = '&' :: w1 ++ p :: x' := by rw [← hmk, hx1]
+                  simp only [List.cons_append, List.cons.injEq, true_and] at this
+                  rw [this]; simp
+                have := hstop (pre ++ '&' :: w1) p (x' ++ rest) (by rw [hsrc, hx2]; simp)
+                  (by rw [byteLen_append]; omega)
+                rw [hp] at this; cases this
+            · exact hge
+          have hpre2 : ∃ v, '&' :: w1 = sp.markup ++ v := by
+            obtain ⟨x, hx1, _⟩ := append_prefix sp.markup rest ('&' :: w1) post hsf.symm hfit
+            exact ⟨x, hx1⟩
+          obtain ⟨v, hv⟩ := hpre2
+          refine ⟨?_, ?_, ?_⟩
+          · rw [hmk]; have := Char.utf8Size_pos '&'; simp only [byteLen]; omega
+          · omega
+          · exact boundary_in_slice (by rw [← hv]; exact hsl)
+        · simp at hl
+  have hex : ∃ o st', ruleEntity cfg st silent = .ok (o, st') := by
+    obtain ⟨r, hr⟩ := entityCore_total cfg.entity hne (w ++ post)
+    unfold ruleEntity
+    rw [hw]
+    simp only
+    cases w with
+    | nil => exact absurd rfl hne
+    | cons c w1 =>
+      simp only
+      split
+      · exact ⟨_, _, rfl⟩
+      · rw [hsuf]
+        simp only [liftOps, hr]
+        match r with
+        | none => exact ⟨_, _, rfl⟩
+        | some sp =>
+          simp only
+          split
+          · exact ⟨_, _, rfl⟩
+          · obtain ⟨x, y, hm, _, _⟩ := getMap_ok (st := st) hi.wf (a := st.pos)
+              (b := st.pos + byteLen sp.markup) (by omega)
+            rw [hm]; exact ⟨_, _, rfl⟩
+  obtain ⟨o, st', h⟩ := hex
+  exact ⟨o, st', h, hadv o (ruleEntity_verdict hw hsuf h)⟩
+
+/-- **silent = real (entity).** -/
+theorem silent_real_entity {cfg : Cfg} {st : IState} {n : Nat} {st1 : IState}
+    (hs : ruleEntity cfg st true = .ok (some n, st1)) :
+    st1 = st ∧ ∀ o st2, ruleEntity cfg st false = .ok (o, st2) → o = some n ∧ st2.pos = st.pos := by
+  have h1 : st1 = st := by
+    unfold ruleEntity at hs
+    split at hs
+    · simp at hs
+    · split at hs
+      · simp at hs
+      · split at hs
+        · simp at hs
+        · split at hs
+          · simp at hs
+          · split at hs
+            · simp at hs
+            · simp at hs
+            · simp only [if_true, Except.ok.injEq, Prod.mk.injEq] at hs; exact hs.2.symm
+  refine ⟨h1, ?_⟩
+  intro o st2 hr
+  cases hw : st.window with
+  | error e => unfold ruleEntity at hs; rw [hw] at hs; simp at hs
+  | ok w =>
+    cases hsuf : slice st.src st.pos (byteLen st.src) with
+    | error e =>
+      -- the suffix slice failed: then silent mode cannot have answered `some`
+      exfalso
+      unfold ruleEntity at hs
+      rw [hw] at hs
+      simp only at hs
+      split at hs
+      · simp at hs
+      · split at hs
+        · simp at hs
+        · rw [hsuf] at hs; simp [liftOps] at hs
+    | ok suffix =>
+      have v1 := ruleEntity_verdict hw hsuf hs
+      have v2 := ruleEntity_verdict hw hsuf hr
+      exact ⟨by rw [v2, ← v1], (ruleEntity_simple hr).pos⟩
+
+/-! ## code spans (through `MdIt.CodePair`) -/
+
+theorem backtick_size : ('`' : Char).utf8Size = 1 := by decide
+
+theorem scan_silent_node (v : CodePair.Variant) (m : Char) (src : List Char)
+    (pos posMax n p matchEnd : Nat) (c : CodePair.Cache) (o : CodePair.Outcome) (c' : CodePair.Cache)
+    (h : CodePair.scan v m src pos posMax n p true matchEnd c = .ok (some o, c')) : o.node = none := by
+  fun_induction CodePair.scan v m src pos posMax n p true matchEnd c <;> simp_all
+  all_goals (try (obtain ⟨rfl, _⟩ := h; rfl))
+
+theorem run_silent_node (v : CodePair.Variant) (m : Char) (src : List Char) (pos posMax : Nat)
+    (prev : Bool) (c : CodePair.Cache) (o : CodePair.Outcome) (c' : CodePair.Cache)
+    (h : CodePair.run v m src pos posMax prev true c = .ok (some o, c')) : o.node = none := by
+  unfold CodePair.run at h
+  repeat' split at h
+  all_goals first
+    | exact scan_silent_node _ _ _ _ _ _ _ _ _ _ _ h
+    | simp at h
+
+theorem mkNode_ranges {src : List Char} {statePos p ms me n : Nat} {nd : CodePair.Node}
+    (h : CodePair.mkNode src statePos p ms me n = .ok nd) :
+    nd.rangeStart ≤ nd.rangeEnd ∧ nd.innerStart ≤ nd.innerEnd := by
+  have hf : ∀ a b c d e (ct : List Char), CodePair.finishNode a b c d e ct = .ok nd →
+      nd.rangeStart ≤ nd.rangeEnd ∧ nd.innerStart ≤ nd.innerEnd := by
+    intro a b c d e ct hf
+    unfold CodePair.finishNode at hf
+    split at hf
+    · split at hf
+      · simp only [Except.ok.injEq] at hf; subst hf; exact ⟨by assumption, by assumption⟩
+      · simp at hf
+    · simp at hf
+  unfold CodePair.mkNode at h
+  split at h
+  · simp at h
+  · simp only at h
+    split at h
+    · split at h
+      · simp at h
+      · split at h
+        · simp at h
+        · exact hf _ _ _ _ _ _ h
+    · exact hf _ _ _ _ _ _ h
+
+theorem scan_node_ranges (v : CodePair.Variant) (m : Char) (src : List Char)
+    (pos posMax n p : Nat) (silent : Bool) (matchEnd : Nat) (c : CodePair.Cache) (o : CodePair.Outcome)
+    (c' : CodePair.Cache) (nd : CodePair.Node)
+    (h : CodePair.scan v m src pos posMax n p silent matchEnd c = .ok (some o, c'))
+    (hn : o.node = some nd) : nd.rangeStart ≤ nd.rangeEnd ∧ nd.innerStart ≤ nd.innerEnd := by
+  fun_induction CodePair.scan v m src pos posMax n p silent matchEnd c <;> simp_all
+  · obtain ⟨rfl, _⟩ := h; simp at hn
+  · next hmk =>
+    obtain ⟨rfl, _⟩ := h
+    simp only [Option.some.injEq] at hn; subst hn
+    exact mkNode_ranges hmk
+
+theorem run_node_ranges (v : CodePair.Variant) (m : Char) (src : List Char) (pos posMax : Nat)
+    (prev silent : Bool) (c : CodePair.Cache) (o : CodePair.Outcome) (c' : CodePair.Cache)
+    (nd : CodePair.Node)
+    (h : CodePair.run v m src pos posMax prev silent c = .ok (some o, c')) (hn : o.node = some nd) :
+    nd.rangeStart ≤ nd.rangeEnd ∧ nd.innerStart ≤ nd.innerEnd := by
+  unfold CodePair.run at h
+  repeat' split at h
+  all_goals first
+    | exact scan_node_ranges _ _ _ _ _ _ _ _ _ _ _ _ _ h hn
+    | simp at h
+
+theorem ruleBackticks_simple {st st' : IState} {silent : Bool} {o : Option Nat}
+    (h : ruleBackticks st silent = .ok (o, st')) : Simple st silent o st' := by
+  unfold ruleBackticks at h
+  split at h
+  · simp at h
+  · simp only [Except.ok.injEq, Prod.mk.injEq] at h; obtain ⟨rfl, rfl⟩ := h
+    exact ⟨⟨rfl, rfl, rfl, rfl, rfl⟩, rfl, rfl, fun _ => ⟨rfl, rfl⟩, by simp⟩
+  · next oc c hrun =>
+    have hprog := (CodePair.codepair_progress _ _ backtick_size _ _ _ _ _ _ _ _ hrun).1
+    split at h
+    · simp only [Except.ok.injEq, Prod.mk.injEq] at h; obtain ⟨rfl, rfl⟩ := h
+      refine ⟨⟨rfl, rfl, rfl, rfl, rfl⟩, rfl, rfl, fun _ => ⟨rfl, rfl⟩, ?_⟩
+      intro l hl; simp only [Option.some.injEq] at hl; omega
+    · next nd hnd =>
+      split at h
+      · simp at h
+      · split at h
+        · simp at h
+        · simp only [Except.ok.injEq, Prod.mk.injEq] at h; obtain ⟨rfl, rfl⟩ := h
+          refine ⟨⟨rfl, rfl, rfl, rfl, rfl⟩, rfl, rfl, ?_, ?_⟩
+          · intro hs; subst hs
+            have := run_silent_node _ _ _ _ _ _ _ _ _ hrun
+            rw [this] at hnd; cases hnd
+          · intro l hl; simp only [Option.some.injEq] at hl; omega
+
+theorem inline_rule_progress_backticks {st : IState} (hi : InlineInv st) (silent : Bool) :
+    ∃ o st', ruleBackticks st silent = .ok (o, st') ∧ Advances st o := by
+  have hb1 := (codeBoundary_iff st.src st.pos).mpr hi.bpos
+  have hb2 := (codeBoundary_iff st.src st.posMax).mpr hi.bmax
+  obtain ⟨r, hr⟩ := CodePair.codepair_no_panic CodePair.Variant.current rfl '`' backtick_size st.src
+    st.pos st.posMax false silent st.backticks hb1 hb2 hi.lt
+  obtain ⟨oc, c⟩ := r
+  have hadv : ∀ (o : CodePair.Outcome), oc = some o → Advances st (some o.len) := by
+    intro o ho len hl
+    subst ho
+    simp only [Option.some.injEq] at hl; subst hl
+    obtain ⟨h2, h3, h4⟩ := CodePair.codepair_progress _ _ backtick_size _ _ _ _ _ _ _ _ hr
+    exact ⟨by omega, h3, (codeBoundary_iff _ _).mp h4⟩
+  unfold ruleBackticks
+  rw [hr]
+  match oc, hadv with
+  | none, _ => exact ⟨_, _, rfl, by intro len hl; simp at hl⟩
+  | some o, hadv =>
+    simp only
+    cases hnd : o.node with
+    | none => exact ⟨_, _, rfl, hadv o rfl⟩
+    | some nd =>
+      simp only
+      obtain ⟨r1, r2⟩ := run_node_ranges _ _ _ _ _ _ _ _ _ _ nd hr hnd
+      obtain ⟨x, y, hm, _, _⟩ := getMap_ok (st := st) hi.wf r1
+      obtain ⟨x', y', hm', _, _⟩ := getMap_ok (st := st) hi.wf r2
+      rw [hm, hm']
+      exact ⟨_, _, rfl, hadv o rfl⟩
+
+/-- **silent = real (code spans)**, from `CodePair.codepair_silent_real`: same verdict, same cache
+    afterwards; look-ahead changes the code-span cache and nothing else. -/
+theorem silent_real_backticks {st : IState} {n : Nat} {st1 : IState}
+    (hs : ruleBackticks st true = .ok (some n, st1)) :
+    st1 = { st with backticks := st1.backticks } ∧
+    ∀ o st2, ruleBackticks st false = .ok (o, st2) →
+      o = some n ∧ st2.pos = st.pos ∧ st2.backticks = st1.backticks := by
+  have hsr := CodePair.codepair_silent_real CodePair.Variant.current '`' backtick_size st.src st.pos
+    st.posMax false st.backticks
+  unfold ruleBackticks at hs
+  split at hs
+  · simp at hs
+  · simp at hs
+  · next oc c hrun =>
+    have hnone := run_silent_node _ _ _ _ _ _ _ _ _ hrun
+    rw [hnone] at hs
+    simp only [Except.ok.injEq, Prod.mk.injEq, Option.some.injEq] at hs
+    obtain ⟨rfl, rfl⟩ := hs
+    refine ⟨rfl, ?_⟩
+    intro o st2 hr
+    rw [hrun] at hsr
+    unfold ruleBackticks at hr
+    split at hr
+    · next e he => rw [he] at hsr; simp [Except.map] at hsr
+    · next c2 he =>
+      rw [he] at hsr; simp [Except.map, CodePair.strip] at hsr
+    · next oc2 c2 he =>
+      rw [he] at hsr
+      simp only [Except.map, CodePair.strip, Option.map_some, Except.ok.injEq, Prod.mk.injEq,
+        Option.some.injEq] at hsr
+      obtain ⟨hl, hc⟩ := hsr
+      split at hr
+      · simp only [Except.ok.injEq, Prod.mk.injEq] at hr; obtain ⟨rfl, rfl⟩ := hr
+        exact ⟨by rw [hl], rfl, hc.symm⟩
+      · split at hr
+        · simp at hr
+        · split at hr
+          · simp at hr
+          · simp only [Except.ok.injEq, Prod.mk.injEq] at hr; obtain ⟨rfl, rfl⟩ := hr
+            exact ⟨by rw [hl], rfl, hc.symm⟩
+
 end MdIt.Inline
